@@ -21,11 +21,16 @@ type gor struct {
 	entry   func()
 	cond    func() bool // nil = runnable
 	why     string
+	timers  []*chanV // may-fire channels this goroutine is currently waiting on
 }
 
 type gorKill struct{}
 
+// Timers (time.After/NewTimer, context deadlines) are "lazy" by default: they fire only when every goroutine
+// is blocked, i.e. time passes only when nothing else can happen (timeouts are long compared to computation).
+// A harness may switch to eager timers (vTimersEager): then a timer may fire at any select that waits on it.
 type sched struct {
+	eager  bool
 	e      *Engine
 	gors   []*gor
 	cur    *gor
@@ -143,6 +148,10 @@ func (s *sched) block(why string, cond func() bool) {
 		me := s.cur
 		me.cond, me.why = cond, why
 		next := s.pickNext(me)
+		if next == nil && s.fireIdleTimer() {
+			me.cond = nil
+			continue
+		}
 		if next == nil {
 			me.cond = nil
 			detail := why
@@ -171,6 +180,32 @@ func itoa(i int) string {
 		i /= 10
 	}
 	return string(b)
+}
+
+// fireIdleTimer: every goroutine is blocked; if some of them wait on a timer, time passes and one fires.
+func (s *sched) fireIdleTimer() bool {
+	var cands []*chanV
+	seen := map[*chanV]bool{}
+	for _, g := range s.gors {
+		if g.done {
+			continue
+		}
+		for _, c := range g.timers {
+			if c.mayFire && !c.closed && len(c.q) == 0 && !seen[c] {
+				seen[c] = true
+				cands = append(cands, c)
+			}
+		}
+	}
+	if len(cands) == 0 {
+		return false
+	}
+	c := cands[0]
+	if len(cands) > 1 {
+		c = cands[s.e.choose(len(cands))]
+	}
+	c.fire()
+	return true
 }
 
 // yield lets every other runnable goroutine run until it blocks or ends.
@@ -235,10 +270,17 @@ func (e *Engine) chanRecv(c *chanV, commaOk bool, elem types.Type) value {
 	if c == nil {
 		e.sched.block("recv on nil chan", func() bool { return false })
 	}
-	c.fire()
+	if e.sched.eager {
+		c.fire()
+	}
 	if len(c.q) == 0 && !c.closed {
 		c.waiters++
+		me := e.sched.cur
+		if c.mayFire {
+			me.timers = []*chanV{c}
+		}
 		e.sched.block("chan recv (empty)", func() bool { return len(c.q) > 0 || c.closed })
+		me.timers = nil
 		c.waiters--
 	}
 	var v value
@@ -294,7 +336,7 @@ func (e *Engine) selectInstr(fr *frame, instr *ssa.Select) value {
 				if s.c.closed || (s.c.cap > 0 && len(s.c.q) < s.c.cap) || (s.c.cap == 0 && s.c.waiters > 0 && len(s.c.q) == 0) {
 					r = append(r, i)
 				}
-			} else if len(s.c.q) > 0 || s.c.closed || s.c.mayFire {
+			} else if len(s.c.q) > 0 || s.c.closed || (s.c.mayFire && e.sched.eager) {
 				r = append(r, i)
 			}
 		}
@@ -308,7 +350,14 @@ func (e *Engine) selectInstr(fr *frame, instr *ssa.Select) value {
 				s.c.waiters++
 			}
 		}
+		me := e.sched.cur
+		for _, s := range states {
+			if s.c != nil && !s.send && s.c.mayFire {
+				me.timers = append(me.timers, s.c)
+			}
+		}
 		e.sched.block("select (no case ready)", func() bool { return len(ready()) > 0 })
+		me.timers = nil
 		for _, s := range states {
 			if s.c != nil && !s.send {
 				s.c.waiters--
